@@ -211,6 +211,19 @@ fn k13_brickcolor_variants() {
     }
 }
 
+// (a from_name harness was tried twice — symbolic row index, and all rows walked in one run — and timed out at 900 s / 600 s: str match arms; not claimed)
+// palette colours: to_color3uint8 of every variant is the colour of its own row
+#[kani::proof]
+fn k13_brickcolor_palette() {
+    let i: usize = kani::any();
+    kani::assume(i < BRICK_ROWS.len());
+    let v = BRICK_VARIANTS[i];
+    let (_, _, (r, g, b)) = BRICK_ROWS[i];
+    let c = v.to_color3uint8();
+    assert!(c.r == r && c.g == g && c.b == b);
+    kani::cover!(v as u16 == 1032);
+}
+
 #[kani::proof]
 fn k13_font_weight_style() {
     let w: u16 = kani::any();
